@@ -112,6 +112,11 @@ def name_code(s):
 # are measured with len() and indexed, so they are tuples or lists (of tuples or lists).
 NFORMS = ["tuple", "list", "iter", "gen", "map", "repeat"]
 BFORMS = ["asis", "tuple", "list", "list-of-lists"]
+# a single BARE edge may itself be written as a tuple (u, v) or as a list [u, v] (both are re-packed by the fast
+# generator and stored as one entry by the custom one).  "bare-list" / "list-bare-list": the bare edge as a LIST, a
+# sequence of edges as is / as a list of tuples.  Not for the network variant: its conversion keys dicts by the edge
+# entries, a list entry is unhashable there (same reason as for "list-of-lists").
+BARE_LIST_FORMS = ["bare-list", "list-bare-list"]
 
 
 def make_namer(t, form):
@@ -141,7 +146,11 @@ def reform_build(r, form):
         return r
     bare = len(r) == 2 and all(isinstance(a, int) for a in r)
     if bare:
-        return list(r) if form == "list-of-lists" else r
+        return list(r) if form in ("list-of-lists", "bare-list", "list-bare-list") else r
+    if form == "bare-list":
+        return r
+    if form == "list-bare-list":
+        return list(r)
     if form == "tuple":
         return tuple(tuple(e) if isinstance(e, list) else e for e in r)
     if form == "list":
@@ -153,7 +162,8 @@ def add_forms(case, rng=None, k=None):
     """give the case callback-result forms: drawn from rng, or the k-th combination of a fixed rotation"""
     n_cb = max(1, len(case.get("codes", [])))
     # edges as LISTS only for the custom generator (the network conversion keys dicts by the edge entries)
-    bforms = BFORMS if case.get("tag") == MOTIFS else BFORMS[:3]
+    tag = case.get("tag")
+    bforms = BFORMS + BARE_LIST_FORMS if tag == MOTIFS else BFORMS[:3] + (BARE_LIST_FORMS if tag == FAST else [])
     if rng is not None:
         case["nforms"] = [rng.choice(NFORMS) for _ in range(n_cb)]
         case["bform"] = rng.choice(bforms)
@@ -285,6 +295,7 @@ class Runner:
         self.bad_arg_types = None
         self.decoys = []
         self.params_snapshot = None
+        self.keep_results = False
 
     def snapshot(self):
         a = self.alg
@@ -331,7 +342,8 @@ class Runner:
         jds_before = [mk(r) for r in jds]
         types_before = [type(r) for r in jds]
         del self.log[:]
-        self.damage_last()
+        if not self.keep_results:        # a caller that COLLECTS the results leaves them alone
+            self.damage_last()
 
         def go():
             if self.alg is None:
@@ -356,6 +368,14 @@ class Runner:
             "input_jds_intact": (list(jds) == jds_before and [type(r) for r in jds] == types_before
                                  and self.snapshot() == self.params_snapshot),
         }
+        obs.update(self.read_out(out))
+        return obs
+
+    def read_out(self, out):
+        """what a returned object holds NOW (also used to re-observe a result kept from an earlier call)"""
+        from gcmpy.names.network_names import NetworkNames
+        tag = self.case["tag"]
+        obs = {}
         if tag == NETWORK:
             G = out.G
             obs["nodes"] = sorted(enc_raw(n) for n in G.nodes())
@@ -459,24 +479,82 @@ def impl_case(case):
     observation carries 'protocol' (reported by compare; the checkers still judge the outputs)."""
     import zlib
     steps = steps_of(case)
+    keep = bool(case.get("keep"))
     try:
         r = Runner(case)
-        out = []
+        r.keep_results = keep
+        out, kept = [], []
         for st in steps:
             script = oracles.Script([("shuffle", list(pi)) for pi in st["pis"]])
             out.append(r.step(st["jds"], script, False, case.get("rows", "tuple")))
+            kept.append(r.last_out)
+        if keep:
+            reobserve(r, out, kept)
         return {"steps": out}
     except oracles.OracleProtocol as e:
         msg = "%s: %s" % (type(e).__name__, e)
     r = Runner(case)
-    out = []
+    r.keep_results = keep
+    out, kept = [], []
     for i, st in enumerate(steps):
         orc = FreeOracle(zlib.crc32(repr((case.get("tag"), st["jds"], i)).encode()))
         with free_scripted(orc):
             o = r.step(st["jds"], orc, True, case.get("rows", "tuple"))
         o["protocol"] = msg + " (asked: %s)" % ",".join(orc.asked[:6])
         out.append(o)
+        kept.append(r.last_out)
+    if keep:
+        reobserve(r, out, kept)
     return {"steps": out}
+
+
+# case['keep']: the caller KEEPS every returned object (untouched) while it generates again on the same algorithm object,
+# and reads them all after the last call.  What a kept result holds then is judged by the same row checker, against the
+# callback results logged for the call that returned it (results of successive calls must not alias each other).
+# joint_degrees is left out: the edge list carries the caller's own jds list, which a history refills in place.
+LATER_FIELDS = ("edges", "names", "ids", "nodes", "net_edges")
+
+
+def reobserve(runner, obs_list, kept):
+    for o, res in zip(obs_list, kept):
+        try:
+            now = runner.read_out(res)
+            o["later"] = {f: now[f] for f in LATER_FIELDS if f in now}
+        except Exception as e:  # noqa: BLE001
+            o["later"] = {"edges": [-1], "names": [], "ids": [], "nodes": [], "net_edges": [], "error": type(e).__name__}
+
+
+def later_changed(o):
+    lt = o.get("later") if isinstance(o, dict) else None
+    return lt is not None and any(f in o and o[f] != lt.get(f) for f in LATER_FIELDS)
+
+
+def later_check_calls(case, impl_obs, vacuous):
+    """one more c02_check per step of a 'keep' case: the rows the kept result shows after the last call"""
+    if not case.get("keep") or not isinstance(impl_obs, dict):
+        return []
+    calls = []
+    for st, o in zip(steps_of(case), impl_obs["steps"]):
+        t = None
+        if isinstance(o, dict) and o.get("later") is not None:
+            o2 = dict(o)
+            o2.update({f: v for f, v in o["later"].items() if f in LATER_FIELDS})
+            t = c02_check_tree(st, o2)
+        calls.append(("c02_check", t if t is not None else vacuous))
+    return calls
+
+
+def later_verdict(case, impl_obs, raws_later, valid):
+    """raws_later: the answers to later_check_calls; valid[i]: the hypotheses hold for step i"""
+    if not case.get("keep") or not isinstance(impl_obs, dict):
+        return None
+    n = len(impl_obs["steps"])
+    for i, (o, v) in enumerate(zip(impl_obs["steps"], raws_later)):
+        if valid[i] and v != 1 and later_changed(o):
+            return ("c02_check rejected the result of call %d of %d on the same algorithm object when it was read again after "
+                    "the last call (the caller kept it untouched): its rows are no longer, block by block, the edges the build "
+                    "callbacks returned for that call, with its topology's name and one private id per instance" % (i + 1, n))
+    return None
 
 
 # ------------------------------------------------------------------ model side
@@ -703,6 +781,10 @@ def compare_case(case, impl, model):
         d = compare_run(st, o, m)
         if d:
             return d if len(steps) == 1 else "step %d of %d on the same object: %s" % (i, len(steps), d)
+    for i, o in enumerate(impl["steps"]):
+        if later_changed(o):
+            return ("the result of call %d of %d (kept untouched by the caller) changed when the same algorithm object "
+                    "generated again" % (i + 1, len(steps)))
     return None
 
 
@@ -735,6 +817,8 @@ def history_case(rng, tag):
     c["steps"] = steps
     c["rows"] = rng.choice(["tuple", "list"])
     c["decoy"] = rng.random() < 0.5
+    if rng.random() < 0.4:
+        c["keep"] = True         # the returned objects are kept untouched and read again after the last call
     return c
 
 
@@ -1180,6 +1264,13 @@ def common_corpus():
     # computed from the length before the re-pack)
     out.append({"tag": FAST, "via": "main", "jds": [[1, 1], [1, 1], [0, 1]], "sizes": [2, 3], "codes": [BARE, CLIQUE],
                 "names": [[7], [8]], "mis": [], "pis": [[1, 0], [2, 0, 1]]})
+    # the same with the bare edge written as a LIST [u, v] (C01-r7-1 / C02-r7-2: re-pack narrowed to tuples), direct
+    # and through the factory, on bare edges cut from a larger motif size as well
+    out.append({"tag": FAST, "via": "direct", "jds": [[1, 1], [1, 1], [0, 1]], "sizes": [2, 3], "codes": [BARE, CLIQUE],
+                "names": [[7], [8]], "mis": [], "pis": [[1, 0], [2, 0, 1]], "bform": "bare-list", "nforms": ["tuple"]})
+    out.append({"tag": FAST, "via": "factory", "jds": [[1, 2], [1, 2], [1, 2]], "sizes": [3, 2], "codes": [BARE, BARE],
+                "names": [[7], [8]], "mis": [], "pis": [[2, 0, 1], [5, 1, 0, 4, 2, 3]], "bform": "list-bare-list",
+                "nforms": ["tuple"]})
     return out
 
 
